@@ -58,7 +58,7 @@ def rand_int(rng):
     return rng.choice([1, -1]) * 10 ** rng.randint(9, 400)
 
 
-def rand_str(rng, maxlen=12):
+def rand_str(rng, maxlen=12, allow_surrogate=True):
     n = rng.randint(0, maxlen)
     out = []
     for _ in range(n):
@@ -72,7 +72,7 @@ def rand_str(rng, maxlen=12):
         else:
             c = rng.randint(0x10000, 0x10FFFF)
         out.append(chr(c))
-    if rng.random() < 0.06:  # a lone surrogate somewhere: not UTF-8 encodable
+    if allow_surrogate and rng.random() < 0.06:  # a lone surrogate somewhere: not UTF-8 encodable
         out.insert(rng.randint(0, len(out)), chr(rng.choice([0xD800, 0xDBFF, 0xDC00, 0xDC80, 0xDCFF, 0xDFFF, rng.randint(0xD800, 0xDFFF)])))
     return "".join(out)
 
@@ -102,7 +102,7 @@ def rand_leaf(rng, allow_bad=True):
     if k < 0.70:
         return bytes(rng.getrandbits(8) for _ in range(rng.randint(0, 20)))
     if k < 0.93 or not allow_bad:
-        return rand_str(rng)
+        return rand_str(rng, allow_surrogate=allow_bad)
     return rng.choice([pyval.Unsupported(), pyval.IntSub(3), pyval.StrSub("s"), pyval.ListSub([1]), pyval.DictSub(), "lone\ud800", bytearray(b"x"), range(3), 1.5j.__class__, memoryview(b"ab")])
 
 
